@@ -598,7 +598,7 @@ fn lib_engine(rep: &Report, tier: Tier, seed: u64) {
 pub fn run(tier: Tier, seed: u64) -> i32 {
     let rep = Report::new("C05", "fault_enumeration", tier, seed);
     lib_engine(&rep, tier, seed);
-    let nsc = tier.pick(28, 200);
+    let nsc = tier.pick(40, 320);
     let max_writes = tier.pick(24, 60);
     let prepared = par_map(nsc, crate::util::ncpu(), |i| {
         let mut rng = Rng::new(seed).fork(0x0500 + i as u64);
